@@ -49,6 +49,7 @@ type SUT struct {
 	pending    []Problem
 
 	poolBeforePlay map[string]bool
+	junk           [][]byte // blocks stored by the ledger that the state machine must refuse
 }
 
 // NewSUT starts a node at genesis of the tree's chain.
@@ -537,9 +538,13 @@ func head(d []string, n int) []string {
 func diffClass(d []string) string {
 	cl := map[string]bool{}
 	for _, x := range d {
-		i := strings.Index(x, ":")
+		pre := ""
+		if strings.HasPrefix(x, "L:") {
+			pre, x = "L.", x[2:]
+		}
+		i := strings.IndexAny(x, ":.0123456789")
 		if i > 0 {
-			cl[x[:i]] = true
+			cl[pre+x[:i]] = true
 		}
 	}
 	ks := []string{}
